@@ -450,39 +450,43 @@ Fixpoint decode_dev_fields (c : dcfg) (s : dstate) (arch : N) (dds : list ddef) 
   end.
 
 (* ---------------------------------------------------------------- message data *)
+(* the part of decodeMessageData after the compressed-timestamp field has been prepared *)
+Definition decode_data_body (c : dcfg) (s : dstate) (header : N) (d : mdef) (fs0 : list field) : outcome dstate :=
+  do r <- decode_fields c s (md_arch d) (md_num d) (md_fields d) fs0;
+  let fs := fst r in
+  let s := snd r in
+  let r2 := if c_expand c then
+              let r' := expand_all (length fs) 0 (md_num d) fs (s_acc s) in (fst r', upd_acc s (snd r'))
+            else (fs, s) in
+  let fs := fst r2 in
+  let s := snd r2 in
+  let s := match s_fileid s with
+           | None => if md_num d =? mesgnum_FileId then upd_fileid s (Some (mkmsg header (md_num d) fs [])) else s
+           | Some _ => s end in
+  let s := if md_num d =? mesgnum_DeveloperDataId then
+             upd_dev s (s_devidx s ++ [u8_of (field_value_by_num fs fn_DeveloperDataId_DeveloperDataIndex)]) (s_fdescs s)
+           else if md_num d =? mesgnum_FieldDescription then upd_dev s (s_devidx s) (s_fdescs s ++ [new_field_description fs])
+           else s in
+  do r3 <- (match md_devs d with
+            | [] => Ok ([], s)
+            | dds => decode_dev_fields c s (md_arch d) dds []
+            end);
+  Ok (push_msg (snd r3) (mkmsg header (md_num d) fs (fst r3))).
+
 Definition decode_data (c : dcfg) (s : dstate) (header : N) : outcome dstate :=
   let compressed := has header MesgCompressedHeaderMask in
   let local := if compressed then N.shiftr (N.land header CompressedLocalMesgNumMask) CompressedBitShift else header in
   match nth (N.to_nat (N.land local LocalMesgNumMask)) (s_defs s) None with
   | None => Err E_MesgDefMissing
   | Some d =>
-    let '(s, fs0) :=
-      if compressed then
-        let off := N.land header CompressedTimeMask in
-        let ts := wrap 32 (s_ts s + N.land (wrap 8 (off + 256 - s_lto s)) CompressedTimeMask) in
-        let s := upd_time s ts off in
-        let tf := create_field (md_num d) FieldNumTimestamp in
-        let tf := if f_known tf then tf else set_fb tf (with_type (f_fb tf) bt_uint32 pt_DateTime (fb_array (f_fb tf))) in
-        (s, [set_value tf (VNum TU32 ts)])
-      else (s, []) in
-    do r <- decode_fields c s (md_arch d) (md_num d) (md_fields d) fs0;
-    let '(fs, s) := r in
-    let '(fs, s) := if c_expand c then
-                      let '(fs', acc) := expand_all (length fs) 0 (md_num d) fs (s_acc s) in (fs', upd_acc s acc)
-                    else (fs, s) in
-    let s := match s_fileid s with
-             | None => if md_num d =? mesgnum_FileId then upd_fileid s (Some (mkmsg header (md_num d) fs [])) else s
-             | Some _ => s end in
-    let s := if md_num d =? mesgnum_DeveloperDataId then
-               upd_dev s (s_devidx s ++ [u8_of (field_value_by_num fs fn_DeveloperDataId_DeveloperDataIndex)]) (s_fdescs s)
-             else if md_num d =? mesgnum_FieldDescription then upd_dev s (s_devidx s) (s_fdescs s ++ [new_field_description fs])
-             else s in
-    do r <- (match md_devs d with
-             | [] => Ok ([], s)
-             | dds => decode_dev_fields c s (md_arch d) dds []
-             end);
-    let '(devs, s) := r in
-    Ok (push_msg s (mkmsg header (md_num d) fs devs))
+    if compressed then
+      let off := N.land header CompressedTimeMask in
+      let ts := wrap 32 (s_ts s + N.land (wrap 8 (off + 256 - s_lto s)) CompressedTimeMask) in
+      let s := upd_time s ts off in
+      let tf := create_field (md_num d) FieldNumTimestamp in
+      let tf := if f_known tf then tf else set_fb tf (with_type (f_fb tf) bt_uint32 pt_DateTime (fb_array (f_fb tf))) in
+      decode_data_body c s header d [set_value tf (VNum TU32 ts)]
+    else decode_data_body c s header d []
   end.
 
 Definition decode_message (c : dcfg) (s : dstate) : outcome dstate :=
